@@ -28,6 +28,7 @@
  */
 #define VF_PROP "C13"
 #define VF_HAVE_INIT
+#define VF_HAVE_FINI
 #include "vf_common.h"
 #include <math.h>
 #include <float.h>
@@ -384,8 +385,8 @@ static int mf_eval(int f, double const *p, char const *dn, double x, double *out
         if (!(ratio <= 1))
         {
             snprintf(key, sizeof(key), "mf_%s/formula/%s", fam_name[f], dn);
-            vf_viol(key, "a_mf_%s(x=%a; %a, %a, %a, %a) = %.17g, documented formula gives %.20Qg (error %.3g x the 4-ulp tolerance; x=%.17g, params %.17g %.17g %.17g %.17g)",
-                    fam_name[f], x, p[0], p[1], p[2], p[3], g, rv.v, ratio, x, p[0], p[1], p[2], p[3]);
+            vf_viol(key, "a_mf_%s(x=%a; %a, %a, %a, %a) = %.17g, documented formula gives %.21Lg (error %.3g x the 4-ulp tolerance; x=%.17g, params %.17g %.17g %.17g %.17g)",
+                    fam_name[f], x, p[0], p[1], p[2], p[3], g, (long double)rv.v, ratio, x, p[0], p[1], p[2], p[3]);
             return 0;
         }
     }
